@@ -137,6 +137,11 @@ type UP4 struct {
 	applicationIDs     map[up4ApplicationFilter]internalApp
 	applicationIDsPool []uint8
 
+	// rulesMu serializes the programming of PFCP rules. PFCP associations are served by one
+	// goroutine each and all of them call into this single UP4 object: meters, ueAddrToFSEID,
+	// fseidToUEAddr and the counters are plain maps/slices shared between them.
+	rulesMu sync.Mutex
+
 	// meters stores the mapping from <F-SEID; QER ID> -> P4 Meter Cell ID.
 	// P4 Meter Cell ID is retrieved from appMeterCellIDsPool or sessMeterCellIDsPool,
 	// depending on QER type (application/session).
@@ -538,7 +543,12 @@ func (up4 *UP4) listenToDDNs() {
 			digestData := up4.p4client.GetNextDigestData()
 
 			ueAddr := binary.BigEndian.Uint32(digestData)
-			if fseid, exists := up4.ueAddrToFSEID[ueAddr]; exists {
+
+			up4.rulesMu.Lock()
+			fseid, exists := up4.ueAddrToFSEID[ueAddr]
+			up4.rulesMu.Unlock()
+
+			if exists {
 				notifier.Notify(fseid)
 			}
 		}
@@ -1544,6 +1554,9 @@ func (up4 *UP4) SendMsgToUPF(method upfMsgType, all PacketForwardingRules, updat
 		logger.PfcpLog.Errorln("UP4 server not connected")
 		return ie.CauseRequestRejected
 	}
+
+	up4.rulesMu.Lock()
+	defer up4.rulesMu.Unlock()
 
 	up4Log := logger.PfcpLog.With("method-type", method, "all", all, "updated-rules", updated)
 	up4Log.Debugln("sending PFCP message to UP4..")
